@@ -5,18 +5,21 @@ import MxModel.Lemmas.PairArith
 
 namespace Mx.Pair
 
-/-- fields that fee routing never touches -/
+/-- fields that fee routing never touches (nor does the credit of simple-lock's holdings that
+    follows it in a swap: `slk1/slk2` are deliberately not listed, see `swapIn_spec`) -/
 def SameCfg (s s' : St) : Prop :=
   s'.S = s.S ∧ s'.lpCirc = s.lpCirc ∧ s'.lpOwn = s.lpOwn ∧ s'.status = s.status ∧
   s'.total = s.total ∧ s'.special = s.special ∧ s'.dests = s.dests ∧ s'.cut = s.cut ∧
-  s'.adder = s.adder ∧ s'.wl = s.wl ∧ s'.round = s.round ∧ s'.sp = s.sp
+  s'.adder = s.adder ∧ s'.wl = s.wl ∧ s'.round = s.round ∧ s'.sp = s.sp ∧
+  s'.lockDeadline = s.lockDeadline ∧ s'.lockUnlockEpoch = s.lockUnlockEpoch ∧
+  s'.lockSc = s.lockSc ∧ s'.epoch = s.epoch
 
 theorem SameCfg.refl (s : St) : SameCfg s s := by simp [SameCfg]
 
 theorem SameCfg.trans {a b c : St} (h1 : SameCfg a b) (h2 : SameCfg b c) : SameCfg a c := by
   simp only [SameCfg] at *
-  obtain ⟨a1, a2, a3, a4, a5, a6, a7, a8, a9, a10, a11, a12⟩ := h1
-  obtain ⟨b1, b2, b3, b4, b5, b6, b7, b8, b9, b10, b11, b12⟩ := h2
+  obtain ⟨a1, a2, a3, a4, a5, a6, a7, a8, a9, a10, a11, a12, a13, a14, a15, a16⟩ := h1
+  obtain ⟨b1, b2, b3, b4, b5, b6, b7, b8, b9, b10, b11, b12, b13, b14, b15, b16⟩ := h2
   simp [*]
 
 /-- Effect of routing `spent` units of the input token of direction `d` away from the
@@ -119,5 +122,54 @@ theorem feeSlices_spec {d : Dir} {slice : Nat} (ws : List Want) {s s' : St}
     obtain ⟨s1, h1, h2⟩ := h
     have := (feeSlice_spec h1).trans (ih h2)
     simpa [Nat.mul_succ, Nat.add_comm] using this
+
+/-! ### fee routing never touches simple-lock's holdings -/
+
+/-- simple-lock's holdings of both pool tokens are the same in `s` and `s'` -/
+def SameSlk (s s' : St) : Prop := s'.slk1 = s.slk1 ∧ s'.slk2 = s.slk2
+
+theorem SameSlk.refl (s : St) : SameSlk s s := ⟨rfl, rfl⟩
+
+theorem SameSlk.trans {a b c : St} (h1 : SameSlk a b) (h2 : SameSlk b c) : SameSlk a c :=
+  ⟨h2.1.trans h1.1, h2.2.trans h1.2⟩
+
+theorem feeSlice_slk {s s' : St} {d : Dir} {slice : Nat} {w : Want}
+    (h : s.feeSlice d slice w = some s') : SameSlk s s' := by
+  unfold St.feeSlice at h
+  split at h
+  · simp only [St.debitIn, Option.bind_eq_bind, Option.bind_eq_some_iff, sub?_eq_some,
+      Option.pure_def, Option.some.injEq] at h
+    obtain ⟨s1, ⟨b, ⟨hb, rfl⟩, rfl⟩, rfl⟩ := h
+    cases d <;> exact ⟨rfl, rfl⟩
+  · split at h
+    · simp only [Option.bind_eq_bind, Option.bind_eq_some_iff, St.debitOut, sub?_eq_some,
+        Option.pure_def, Option.some.injEq] at h
+      obtain ⟨⟨s1, out⟩, hl, s2, ⟨b, ⟨hb, rfl⟩, rfl⟩, rfl⟩ := h
+      obtain ⟨_, _, _, rfl⟩ := localSwap_spec hl
+      cases d <;> exact ⟨rfl, rfl⟩
+    · split at h
+      · simp only [Option.bind_eq_bind, Option.bind_eq_some_iff, St.debitIn, sub?_eq_some,
+          Option.pure_def, Option.some.injEq] at h
+        obtain ⟨x', _, s1, ⟨b, ⟨hb, rfl⟩, rfl⟩, rfl⟩ := h
+        cases d <;> exact ⟨rfl, rfl⟩
+      · split at h
+        · simp only [Option.bind_eq_bind, Option.bind_eq_some_iff, St.debitOut, sub?_eq_some,
+            Option.pure_def, Option.some.injEq] at h
+          obtain ⟨⟨s1, out⟩, hl, x', _, s2, ⟨b, ⟨hb, rfl⟩, rfl⟩, rfl⟩ := h
+          obtain ⟨_, _, _, rfl⟩ := localSwap_spec hl
+          cases d <;> exact ⟨rfl, rfl⟩
+        · simp at h
+
+theorem feeSlices_slk {d : Dir} {slice : Nat} (ws : List Want) {s s' : St}
+    (h : s.feeSlices d slice ws = some s') : SameSlk s s' := by
+  induction ws generalizing s with
+  | nil =>
+    simp only [St.feeSlices, Option.some.injEq] at h
+    subst h
+    exact SameSlk.refl s
+  | cons w ws ih =>
+    simp only [St.feeSlices, Option.bind_eq_bind, Option.bind_eq_some_iff] at h
+    obtain ⟨s1, h1, h2⟩ := h
+    exact (feeSlice_slk h1).trans (ih h2)
 
 end Mx.Pair
